@@ -43,59 +43,84 @@ def run(ctx):
             r.ob("G1.field-identifier-from-map", "%s: %s field %r" % (b.name, what, e.template), ok,
                  "identifier = name_map.get_name(real name, %s)%s" % (kind, " (fallback to the raw name only when the map has no entry: %d site(s))" % len(fallback) if fallback else "") if ok else
                  "field identifier does not come from the identifier map: %s" % [term_s(s)[:50] for s in srcs], site=e.site, key="G1|slot|%s|%s" % (what, e.template))
+    # ---- the reservation mechanism, found by role: RES = bodies that add to a String collection field of their
+    # own `self` (the reservation list); RES* = RES plus the methods of the same type that reach RES
+    PUSHERS = ("std::vec::Vec::push", "std::collections::HashSet::insert", "std::collections::BTreeSet::insert")
+    res = {}
+    for bd in lib.real_bodies():
+        f = lib.fns.get(bd.name, {})
+        if not f.get("impl_self") or f["impl_self"].get("adt", "").startswith("element::Element"):
+            continue
+        ps = [cs for cs in bd.calls() if cname(cs.node) in PUSHERS and _is_reserved_list(bd, cs.node["args"][0])]
+        if ps:
+            res[bd.name] = ps
+    cg = lib.callgraph()
+    res_star = set(res)
+    changed = True
+    while changed:
+        changed = False
+        for n, callees in cg.items():
+            if n not in res_star and callees & res_star and lib.fns.get(n, {}).get("impl_self", {}).get("adt") in {lib.fns[x]["impl_self"].get("adt") for x in res}:
+                res_star.add(n)
+                changed = True
+    r.ob("G1.reservation-mechanism", "library", len(res) >= 1, "reservation list is filled by %s (entry points: %s)" % (sorted(res), sorted(res_star)) if res else
+         "no function adds names to a reservation list", key="G1|mechanism")
+
+    def not_res(cb, t):
+        return cb.name not in res_star
+
     # ---- G1a: what Map::new stores
     mb = [x for x in lib.real_bodies() if x.name.endswith("identifier::Map::new")]
     if len(mb) == 1:
         from .common import look_through_private
-        m = look_through_private(lib, mb[0])
+        m = look_through_private(lib, mb[0], also=not_res)
         ins = [cs for cs in m.calls() if cname(cs.node) in ("std::collections::HashMap::insert", "std::collections::BTreeMap::insert")]
+        lists = set()
         for cs in ins:
-            val = strip(term_of(m, cs.node["args"][2]), mir.VALUE_PRESERVING)
             keyt = strip(term_of(m, cs.node["args"][1]))
             kind = None
             if keyt[0] == "agg":
                 kk = [strip(v) for v in keyt[3].values()]
                 kind = next((k[2] for k in kk if k[0] == "agg" and k[1].endswith("identifier::Type")), None)
-            ok = val[0] == "call" and val[1].endswith("ReservedNames::create_unused_name")
-            reserved = False
-            kind_ok = False
+            org = m.origins(cs.node["args"][2], transparent=lambda n: cname(n) in mir.VALUE_PRESERVING)
+            makers = [o[1] for o in org if o[0] == "call" and (o[1].node["callee"].get("path") in res_star or o[1].node["callee"].get("resolved") in res_star)]
+            ok = len(makers) == 1 and len([o for o in org if o[0] == "call"]) == 1
+            reserved = kind_ok = False
             if ok:
-                nm = strip(val[2][1], mir.VALUE_PRESERVING)
-                reserved = (nm[0] == "call" and nm[1] in RESERVED_GUARDS) or (kind == "TextContent" and nm == ("const", "text"))
-                kt = strip(val[2][2])
-                kind_ok = kt[0] == "agg" and kt[2] == kind
-            r.ob("G1.map-values-guarded", "%s: %s entries" % (m.name, kind), ok and reserved and kind_ok,
-                 "stored identifier = create_unused_name(%s, %s)" % ("to_valid_key(real name, parent name)" if kind != "TextContent" else '"text"', kind) if ok and reserved and kind_ok else
-                 "stored identifier is %s (uniqueness guard=%s, reserved-word guard=%s, kind matches=%s)" % (term_s(val)[:60], ok, reserved, kind_ok), site=cs,
+                mk = makers[0]
+                for a in mk.node["args"][1:]:
+                    ta = strip(term_of(m, a), mir.VALUE_PRESERVING)
+                    ty = arg_ty(m, a).get("s", "")
+                    if "identifier::Type" in ty:
+                        kind_ok = ta[0] == "agg" and ta[2] == kind
+                    elif "String" in ty or "str" in ty:
+                        reserved = (ta[0] == "call" and ta[1] in RESERVED_GUARDS) or (kind == "TextContent" and ta == ("const", "text"))
+                p0 = mir.op_place(mk.node["args"][0])
+                lists.add(m.through_ref(p0)["l"] if p0 is not None else None)
+            r.ob("G1.map-values-guarded", "%s: %s entries" % (mb[0].name, kind), ok and reserved and kind_ok,
+                 "stored identifier = <reservation function>(%s, %s)" % ("to_valid_key(real name, parent name)" if kind != "TextContent" else '"text"', kind) if ok and reserved and kind_ok else
+                 "stored identifier: produced by the reservation function=%s, reserved-word guard=%s, kind matches=%s" % (ok, reserved, kind_ok), site=cs,
                  key="G1|mapvalue|%s" % kind)
-        r.ob("G1.map-entry-kinds", m.name, len(ins) == 3, "%d insert sites (children, attributes, text)" % len(ins), key="G1|mapkinds")
-        # one reservation list shared by all three kinds
-        rn = {mir._norm("") for _ in ()}
-        lists = set()
-        for cs in m.calls():
-            if cname(cs.node).endswith("ReservedNames::create_unused_name"):
-                p = mir.op_place(cs.node["args"][0])
-                lists.add(m.through_ref(p)["l"] if p is not None else None)
-        r.ob("G1.single-reservation-list", m.name, len(lists) == 1, "children, attributes and text reserve names in one shared list" if len(lists) == 1 else
+        r.ob("G1.map-entry-kinds", mb[0].name, len(ins) == 3, "%d insert sites (children, attributes, text)" % len(ins), key="G1|mapkinds")
+        r.ob("G1.single-reservation-list", mb[0].name, len(lists) == 1, "children, attributes and text reserve names in one shared list" if len(lists) == 1 else
              "%d reservation lists: identifiers of different kinds can collide" % len(lists), key="G1|onelist")
-    # ---- G1b: create_unused_name reserves exactly what it returns, only when not contained
-    cb = [x for x in lib.real_bodies() if x.name.endswith("ReservedNames::create_unused_name")]
-    if len(cb) == 1:
-        c = cb[0]
-        pushes = [cs for cs in c.calls() if cname(cs.node) in ("std::vec::Vec::push", "std::collections::HashSet::insert", "std::collections::BTreeSet::insert")
-                  and _is_reserved_list(c, cs.node["args"][0])]
+    # ---- G1b: every function that adds to the reservation list adds exactly the name it returns, only when not contained
+    for name in sorted(res):
+        c0 = lib.bodies[name]
+        from .common import look_through_private
+        c = look_through_private(lib, c0, also=not_res)
+        pushes = [cs for cs in c.calls() if cname(cs.node) in PUSHERS and _is_reserved_list(c, cs.node["args"][0])]
         ok = len(pushes) == 1
         why = "%d pushes onto the reservation list" % len(pushes)
         if ok:
             p = pushes[0]
             g = guards_of(c, p.bb) + dominating_edge_guards(c, p.bb)
             pushed = strip(term_of(c, p.node["args"][1]), mir.VALUE_PRESERVING)
-            # the guard that matters: contains(reserved, &pushed) == false
-            cont = [x for x in g if x[0] == "call" and x[1] in CONTAINS and x[3] is False]
+            cont = [x for x in g if x[0] == "call" and x[3] is False and (x[1] in CONTAINS or _any_equals(lib, c, x))]
             same = False
             for x in cont:
-                if _same_var(strip(x[2][1]), pushed):
-                    # the tested variable must not be reassigned between the test's exit edge and the push
+                tested = strip(x[2][1]) if x[1] in CONTAINS else _any_needle(lib, c, x)
+                if tested is not None and _same_var(tested, pushed):
                     if len(x) > 5 and pushed[0] == "local":
                         region = c.reach_from(x[5][1], avoid={x[5][0]})
                         redefs = [d for d in c.defs().get(pushed[1], []) if d.bb in region and p.bb in c.reach_from(d.bb)]
@@ -106,8 +131,9 @@ def run(ctx):
             ok = bool(cont) and same and ret is not None and _same_var(ret, pushed)
             why = "a name is reserved only on the `!reserved.contains(name)` edge and that same name is returned" if ok else \
                 "reservation: guarded by !contains=%s of the pushed value=%s, returned value is the pushed one=%s" % (bool(cont), same, ret is not None and _same_var(ret, pushed))
-        r.ob("G1.uniqueness-guard", c.name, ok, why, site=pushes[0] if pushes else mir.line_of(c.span), key="G1|reserve")
-        # recursive returns hand the callee's result through unchanged
+        r.ob("G1.uniqueness-guard", c0.name, ok, why, site=pushes[0] if pushes else mir.line_of(c0.span), key="G1|reserve")
+    for name in sorted(res_star):
+        c = lib.bodies[name]
         for cs in c.calls():
             if cs.node["callee"].get("path") == c.name:
                 okr = cs.node["dest"]["l"] == 0
@@ -214,8 +240,21 @@ def _value_sources(b, t, depth=0):
     return out
 
 
+OPT_DEFAULTING = ("std::option::Option::unwrap_or_else", "std::option::Option::unwrap_or", "std::option::Option::map_or", "std::option::Option::map_or_else",
+                  "std::option::Option::unwrap_or_default")
+OPT_VIEW = ("std::option::Option::cloned", "std::option::Option::copied", "std::option::Option::as_deref", "std::option::Option::as_ref", "std::option::Option::map")
+
+
 def _is_get_name(s, kind, maps):
     s = strip(s)
+    # Option combinators over the lookup: get_name(..).cloned().unwrap_or_else(|| fallback), .map_or(default, f)
+    if s[0] == "call" and s[1] in OPT_DEFAULTING and s[2]:
+        inner = strip(s[2][0])
+        while inner[0] == "call" and inner[1] in OPT_VIEW and inner[2]:
+            inner = strip(inner[2][0])
+        if inner[0] == "call" and inner[1].endswith("identifier::Map::get_name"):
+            k = strip(inner[2][2])
+            return k[0] == "agg" and k[2] == kind
     # (get_name(&map, name, Kind)) as Some .0
     if s[0] == "proj" and s[1][0] == "call" and s[1][1].endswith("identifier::Map::get_name"):
         k = strip(s[1][2][2])
@@ -348,3 +387,29 @@ def _closure_calls(lib, t):
         if st[0] in ("fn", "agg") and isinstance(st[1], str) and st[1] in lib.bodies:
             out += [cname(c.node) for c in lib.bodies[st[1]].calls()]
     return out
+
+
+def _any_equals(lib, c, g):
+    """guard `list.iter().any(|n| n == name)` on the reservation list, equivalent to contains(name)"""
+    return g[1] == "std::iter::Iterator::any" and _any_needle(lib, c, g) is not None
+
+
+def _any_needle(lib, c, g):
+    if g[1] != "std::iter::Iterator::any" or len(g[2]) != 2:
+        return None
+    src = g[2][0]
+    if not any(st[0] == "proj" and st[1] == ("arg", 1) for st in mir.subterms(src)):
+        return None
+    clo = strip(g[2][1])
+    if clo[0] != "agg" or not isinstance(clo[1], str) or clo[1] not in lib.bodies:
+        return None
+    cb = lib.bodies[clo[1]]
+    t = strip(term_of(cb, {"l": 0, "p": []}))
+    if not (t[0] == "call" and t[1] == "std::cmp::PartialEq::eq" and len(t[2]) == 2):
+        return None
+    sides = [strip(x) for x in t[2]]
+    item = [x for x in sides if x == ("arg", 2) or (x[0] == "proj" and x[1] == ("arg", 2))]
+    cap = [x for x in sides if x[0] == "proj" and x[1] == ("arg", 1)]
+    if len(item) == 1 and len(cap) == 1 and len(clo[3]) == 1:
+        return strip(list(clo[3].values())[0], mir.VALUE_PRESERVING)
+    return None
